@@ -1,17 +1,21 @@
 """builtin function and unary operator kernels through the generic n-ary harness (C01 C02 C03 C05 C10)."""
-from vxlib import Inst, CORE_TUS, FMT_STUBS, CTX_STUBS, CONTAINER_STUBS
+from vxlib import Inst, CORE_TUS, FMT_STUBS, CTX_STUBS, CONTAINER_STUBS, EMPTY_DECL_UNWIND
 
-K = {"n": "K_NOTYPE", "b": "K_BOOLEAN", "i": "K_INTEGER", "d": "K_NUMERIC", "s": "K_LITERAL", "t": "K_TABCHAR"}
+K = {"T": "K_TABI", "D": "K_TABD", "n": "K_NOTYPE", "b": "K_BOOLEAN", "i": "K_INTEGER", "d": "K_NUMERIC", "s": "K_LITERAL", "t": "K_TABCHAR"}
 STUBS = FMT_STUBS + CTX_STUBS + CONTAINER_STUBS
 
-def nary(name, cls, hdr, kinds, props, oracle="ORC_NONE", make=None, slen=2, tier="quick", timeout=240, tus=(), known=None, unwind=4, unwindset=(), short=True, idsuffix=""):
+def nary(name, cls, hdr, kinds, props, oracle="ORC_NONE", make=None, slen=2, tier="quick", timeout=240, tus=(), known=None, unwind=4, unwindset=(), short=True, idsuffix="", stubs=None, mutates=False):
     defs = ['VX_HDR="%s"' % hdr, "VX_MAKE=%s" % (make or ("new %s(std::move(args))" % cls)), "VX_NARGS=%d" % len(kinds), "VX_ORACLE=%s" % oracle, "VX_SLEN=%d" % slen]
     for k, c in enumerate(kinds):
         defs.append("VX_K%d=%s" % (k, K[c]))
     if known:
         defs.append("VX_KNOWN=%s" % known)
+    if mutates:
+        defs.append("VX_MUTATES0=1")
+    if kinds[0] in "TD":
+        defs.append("VX_LVAL0=1")
     return Inst(id="fn.%s.%s%s" % (name, kinds, idsuffix), props=props, harness="h_nary.cpp", entry="vx_nary", tus=CORE_TUS + list(tus), defs=defs,
-                stubs=STUBS, unwind=unwind, unwindset=list(unwindset), timeout=timeout, tier=tier, short_strings=short,
+                stubs=STUBS if stubs is None else stubs, unwind=unwind, unwindset=list(unwindset) + (EMPTY_DECL_UNWIND if kinds[0] in 'TD' else []), timeout=timeout, tier=tier, short_strings=short,
                 bounds="argument kinds fixed per instance; strings / bytes of symbolic length <= %d with symbolic bytes; int64 / double payloads unbounded" % slen,
                 inputs="per argument: payload, string bytes and length, null flag, lvalue flag")
 
@@ -59,4 +63,19 @@ def instances():
     out.append(nary("hash", "HASHExpression", "blocc/builtin/builtin_hash.h", "si", P10, "ORC_HASH", slen=2, tus=B("hash"),
                     known="verif_known(KF_HASH_ZERO_BUCKETS, !A[1].isnull && (unsigned)A[1].i == 0u)"))
     out.append(nary("subraw", "SUBRAWExpression", "blocc/builtin/builtin_subraw.h", "tii", P10, slen=2, tus=B("subraw"), tier="thorough", timeout=900))
+    # member methods (receiver = argument 0)
+    P09 = ["C09", "C01", "C02", "C05"]
+    TSTUBS = FMT_STUBS + CTX_STUBS + CONTAINER_STUBS[3:]          # tables are real here: Collection not cut
+    def M(n):
+        return ["blocc/member/member_%s.cpp" % n, "blocc/expression_member.cpp"]
+    def mk(c):
+        return "new %s(e0, std::move(margs))" % c
+    for k in "st":
+        out.append(nary("m_at", "MemberATExpression", "blocc/member/member_at.h", k + "i", P09, "ORC_AT", make=mk("MemberATExpression"), slen=3, tus=M("at")))
+        out.append(nary("m_count", "MemberCOUNTExpression", "blocc/member/member_count.h", k, P09, "ORC_COUNT", make="new MemberCOUNTExpression(e0)", slen=3, tus=M("count")))
+    out.append(nary("m_at", "MemberATExpression", "blocc/member/member_at.h", "Ti", P09, "ORC_AT", make=mk("MemberATExpression"), tus=M("at"), stubs=TSTUBS, timeout=600))
+    out.append(nary("m_count", "MemberCOUNTExpression", "blocc/member/member_count.h", "T", P09, "ORC_COUNT", make="new MemberCOUNTExpression(e0)", tus=M("count"), stubs=TSTUBS, timeout=3000, tier="thorough"))
+    for k2 in "idn":
+        out.append(nary("m_put", "MemberPUTExpression", "blocc/member/member_put.h", "Ti" + k2, P09, "ORC_PUT", make=mk("MemberPUTExpression"), tus=M("put"), stubs=TSTUBS, timeout=3000, mutates=True, tier="thorough"))
+    out.append(nary("m_delete", "MemberDELETEExpression", "blocc/member/member_delete.h", "Ti", P09, "ORC_DELETE", make=mk("MemberDELETEExpression"), tus=M("delete"), stubs=TSTUBS, timeout=900, mutates=True, tier="thorough"))
     return out
